@@ -15,6 +15,7 @@ Expected(e) ==
     [] e.op = "Zoned.subtract" -> ZSub(Z(e), e.args.t, e.args.dur, Get(e.args, "ovf", "constrain"))
     [] e.op = "Zoned.until" -> ZUntil(Z(e), e.args.t, e.args.other, Largest(e))
     [] e.op = "Zoned.since" -> ZSince(Z(e), e.args.t, e.args.other, Largest(e))
+    [] e.op = "Zoned.withPlainTime" -> ZWithPlainTime(Z(e), e.args.t, e.args.sod)
     [] e.op = "Zoned.startOfDay" -> Ok(ZStartOfDay(Z(e), e.args.t))
     [] e.op = "ZDur.round" -> ZRoundRel(Z(e), e.args.t, e.args.recv, St(e).largest, St(e).smallest, St(e).inc, St(e).mode)
     [] e.op = "ZDur.total" -> ZTotalRel(Z(e), e.args.t, e.args.recv, e.args.unit)
